@@ -166,6 +166,29 @@ func checkDuration(t world.TB, tenths int64) {
 	if got3, err4 := dt.GetTimeDuration(); err4 != nil || got3 != d {
 		world.Fail(t, "C19/duration/roundtrip-relative-durationtype", "%v -> %q -> GetDurationType %q reads back as %v (err %v)", d, *a, *dt, got3, err4)
 	}
+	// the textual form of a duration is not unique: a peer may spell two hours PT2H, PT120M or PT7200S. Every
+	// legal spelling of a whole number of seconds reads back as that duration (from text to duration only; what
+	// the stack itself writes is checked above)
+	if tenths >= 0 && tenths%10 == 0 {
+		secs := tenths / 10
+		texts := []string{fmt.Sprintf("PT%dS", secs), fmt.Sprintf("PT%dM%dS", secs/60, secs%60)}
+		if secs%60 == 0 {
+			texts = append(texts, fmt.Sprintf("PT%dM", secs/60))
+		}
+		if secs%3600 == 0 {
+			texts = append(texts, fmt.Sprintf("PT%dH", secs/3600))
+		}
+		for _, tx := range texts {
+			other := model.DurationType(tx)
+			if got, err := other.GetTimeDuration(); err != nil || got != d {
+				world.Fail(t, "C19/duration/other-spelling", "the duration text %q reads back as %v (err %v), it denotes %v", tx, got, err, d)
+			}
+			rel := model.AbsoluteOrRelativeTimeType(tx)
+			if got, err := rel.GetTimeDuration(); err != nil || got != d || !rel.IsRelativeTime() {
+				world.Fail(t, "C19/duration/other-spelling", "the relative time %q reads back as %v (err %v, relative=%v), it denotes %v", tx, got, err, rel.IsRelativeTime(), d)
+			}
+		}
+	}
 }
 
 func unitsOf(tenths int64) int {
@@ -299,9 +322,41 @@ func TestTimePeriod(t *testing.T) {
 				world.Fail(t, "C19/timeperiod/"+what, "%s: duration %v read back as %v", what, d, got)
 			}
 		}
-		g, err := tp.GetDuration()
-		near("direct", g, err)
-		b, err := json.Marshal(tp)
+		g, errD := tp.GetDuration()
+		near("direct", g, errD)
+		// the period reaches the encoder through a pointer (as the members of the data model do), as a plain value,
+		// as a member of a struct encoded by value, or as a map value
+		var b []byte
+		var err error
+		switch how := rapid.SampledFrom([]string{"pointer", "pointer", "value", "struct-member", "map-value"}).Draw(t, "encodedAs"); how {
+		case "pointer":
+			b, err = json.Marshal(tp)
+		case "value":
+			b, err = json.Marshal(*tp)
+			world.Label("timeperiod/encoded-as-" + how)
+		case "struct-member":
+			var wrapped []byte
+			wrapped, err = json.Marshal(struct {
+				P model.TimePeriodType `json:"p"`
+			}{*tp})
+			var un struct {
+				P json.RawMessage `json:"p"`
+			}
+			if err == nil {
+				err = json.Unmarshal(wrapped, &un)
+			}
+			b = un.P
+			world.Label("timeperiod/encoded-as-" + how)
+		default:
+			var wrapped []byte
+			wrapped, err = json.Marshal(map[string]model.TimePeriodType{"p": *tp})
+			var un map[string]json.RawMessage
+			if err == nil {
+				err = json.Unmarshal(wrapped, &un)
+			}
+			b = un["p"]
+			world.Label("timeperiod/encoded-as-" + how)
+		}
 		if err != nil {
 			world.Fail(t, "C19/timeperiod/marshal", "marshal: %v", err)
 		}
